@@ -466,17 +466,31 @@ macro_rules! prog_semaphore_impl {
                         }
                     }
                 }
-                if let Some(g) = rel {
+                if let Some(mut g) = rel {
                     shuttle::thread::yield_now();
-                    call(json!({"op": "drop_releaser", "a": n}), move || drop(g));
+                    if role.is_none() && n > 0 && choice(3) == 0 {
+                        // the explicit way: disarm the releaser, then release() by hand
+                        let (v, i) = call(json!({"op": "disarm", "a": n}), || g.disarm());
+                        set_res(i, json!({"res": "ok", "val": v}));
+                        call(json!({"op": "drop_releaser", "a": 0}), move || drop(g));
+                        call(json!({"op": "release", "n": n}), || s.release(n));
+                    } else {
+                        call(json!({"op": "drop_releaser", "a": n}), move || drop(g));
+                    }
                 }
                 call(json!({"op": "drop", "f": t}), move || drop_keep(fut));
+                if choice(2) == 0 {
+                    let (v, i) = call(json!({"op": "permits"}), || s.permits());
+                    set_res(i, json!({"res": "ok", "val": v}));
+                }
             }
         }));
     }
     for h in hs {
         h.join().unwrap();
     }
+    let (v, i) = call(json!({"op": "permits"}), || s.permits());
+    set_res(i, json!({"res": "ok", "val": v}));
 }
     };
 }
